@@ -29,6 +29,8 @@ THEOREMS = [
     "WM.C13.column_order",
     "WM.C13.parse_query_total", "WM.C13.datetime_roundtrip",
     "WM.C13.boolean_match", "WM.C13.boolean_old_disagrees",
+    "WM.C13.range_query_decimal", "WM.C13.range_query_float_equal_bounds",
+    "WM.C13.range_query_float_multi",
 ]
 PARTIAL = {
     "WM.C13.range_query_float_numeric_partial":
@@ -55,7 +57,12 @@ RULE = ("split_ranges: exhaustive over 8 bits (every step 1..8, every start<=end
         "YYYYMMDDhhmmssuuuuuu biased to month ends/leap days/field limits, with separators, odd lengths, "
         "out-of-range fields and stray letters; non-trivial = not a plain valid 20-digit timestamp. End-to-end: one case = one real search on a real "
         "index; non-trivial = the expected result set is neither empty nor everything (ranges) or contains a "
-        "tie/negative/limit value (sort). distinct = distinct canonical (stream, config, input).")
+        "tie/negative/limit value (sort). Round 4: every interval generator has a region of bounds that are equal "
+        "as Python numbers (same value; for floats the two zeros in either order), float documents hold both zeros "
+        "and the denormals next to them half of the time, Decimal fields get whole numbers as ints/floats/strings "
+        "(values and bounds) and bounds with more places than the field keeps (oracle = truncated bound), and the "
+        "deterministic zero/NaN probes accept a deviation from the numeric reading only when the observed set is "
+        "exactly the total-order set of the Lean spec. distinct = distinct canonical (stream, config, input).")
 ASSUMPTIONS = [
     "a double is represented by its 64-bit pattern; struct packing of doubles/ints and IEEE comparison of "
     "non-NaN doubles agreeing with totalOrder (up to -0.0 < +0.0) are Python's and only checked by sampling",
@@ -78,6 +85,11 @@ ASSUMPTIONS = [
     "exactly the documents holding that instant is checked end-to-end, the theorem parse_query_datetime covers "
     "the ambiguous (partial date) case",
     "Decimal parsing/arithmetic is Python's; the model works on exact rationals",
+    "the random end-to-end Decimal stream takes, for a range bound with more than decimal_places digits, the "
+    "truncated bound as oracle (the exact behaviour, theorem range_query_decimal); the rational reading of such "
+    "bounds is checked by the deterministic probe and reported as KNOWN-FINDING (decimal_bound_partial / _full_false)",
+    "Python's ==, <, <= on doubles are the spec's pyEq / ieeeLt / ieeeLe (stream pycmp, sampled with a bias to "
+    "numerically equal pairs); theorem range_query_float_equal_bounds is about pyEq",
     "composition with C01 (an Or of Term/TermRange sub-queries matches the documents owning a selected term) "
     "is modelled by `matchesDoc` and checked end-to-end, not proved about the matcher code",
 ]
@@ -119,6 +131,7 @@ SIG_FLOAT_SORTABLE = "NUMERIC(float,sortable=True).add_document:struct.error-fro
 SIG_DT = "long_to_datetime(datetime_to_long(dt))!=dt"
 SIG_DEC = "NUMERIC(decimal).unprepare_number(prepare_number(d))!=d"
 SIG_FSORT = "float-sortable:order!=python-float-order"
+SIG_DEC_INT = "NUMERIC(decimal_places).prepare_number:int-or-float-value-read-as-already-scaled-integer"
 SIG_ZERO = "NumericRange(float):zero-bound-vs-zero-value-of-opposite-sign(-0.0<+0.0-in-sortable-order)"
 SIG_NAN = "NumericRange(float):NaN-document-matched-by-open-ended-range"
 SIG_DECTRUNC = "NumericRange(decimal):bound-with-more-than-decimal_places-digits-truncated-towards-zero"
@@ -189,6 +202,9 @@ def _compile_semantic(cfg, a, b, sx, ex_):
         import random
         rng = random.Random(12345)
         probes = [v for v in (a, b) if v is not None]
+        if cfg["kind"] == "decimal":
+            probes = [Decimal(int(v * (10 ** cfg["dc"]))).scaleb(-cfg["dc"]) for v in probes]
+            probes = [v for v in probes if G.in_domain(cfg, v)]
         for v in list(probes):
             for _ in range(3):
                 w = G.neighbour(rng, cfg, v)
@@ -198,7 +214,13 @@ def _compile_semantic(cfg, a, b, sx, ex_):
         if cfg["kind"] == "int":
             lo, hi = G.int_domain(cfg)
             probes += [lo, hi]
-        key = lambda v: G.to_spec_key(cfg, v)
+        if cfg["kind"] == "decimal":
+            # what the field keeps of a Decimal (bound or value): scaled and truncated towards zero
+            key = lambda v: int(v * (10 ** cfg["dc"]))
+            lo, hi = G.int_domain(cfg)
+            probes = [v for v in probes if lo <= key(v) <= hi] + [Decimal(lo).scaleb(-cfg["dc"]), Decimal(hi).scaleb(-cfg["dc"])]
+        else:
+            key = lambda v: G.to_spec_key(cfg, v)
         for v in probes:
             if v != v:
                 continue
@@ -501,6 +523,12 @@ def _codec_float(ctx):
         # Python's `<` on doubles vs the model's fLt (used by prepare_number)
         b2 = _quiet(_gen_pattern(rng))
         add("c13 flt %d %d" % (b, b2), _b(x < G.b2f(b2)), ("flt", b, b2), special)
+        # Python's <, <=, == vs the spec's ieeeLt / ieeeLe / pyEq (numeric reading, equal-bounds theorem);
+        # a fifth of the pairs are numerically equal (same pattern or the two zeros)
+        b3 = b2 if rng.random() > 0.2 else rng.choice([b, b, b ^ (1 << 63), 0, 1 << 63])
+        y3 = G.b2f(b3)
+        add("c13 pycmp %d %d" % (b, b3), "%s %s %s" % (_b(x < y3), _b(x <= y3), _b(x == y3)), ("pycmp", b, b3),
+            special or x == y3)
         fld = flds[signed]
         if fld is not None:
             try:
@@ -521,6 +549,17 @@ def _codec_float(ctx):
             except Exception as ex:  # noqa
                 r = "err " + G.exc_name(ex)
             add("c13 index-float %s %d %d" % (_b(signed), step, b), r, ("index-float", signed, step, b), True)
+            # a multi-valued document: shared tier terms appear once (neighbouring patterns share most tiers)
+            bl = [b] + [_quiet(_gen_pattern(rng)) if rng.random() < 0.5 else _quiet(max(0, min((1 << 64) - 1, b + rng.choice([1, -1, 16, 1 << 12]))))
+                        for _ in range(rng.randint(1, 3))]
+            if rng.random() < 0.3:
+                bl.append(rng.choice(bl))
+            try:
+                r = "ok (" + " ".join(sexp(t[0]) for t in f2.index([G.b2f(v) for v in bl])) + ")"
+            except Exception as ex:  # noqa
+                r = "err " + G.exc_name(ex)
+            add("c13 index-float-list %s %d (%s)" % (_b(signed), step, " ".join(map(str, bl))), r,
+                ("index-float-list", signed, step, tuple(bl)), True)
         # tiered_ranges on floats
         a = None if rng.random() < 0.2 else _quiet(_gen_pattern(rng, signed))
         c = None if rng.random() < 0.2 else _quiet(_gen_pattern(rng, signed))
@@ -581,7 +620,38 @@ def _compile(ctx):
     rng = ctx.rng("compile")
     items, lines = [], []
     for i in range(ctx.budget(6000, 80000)):
-        if rng.random() < 0.75:
+        r0 = rng.random()
+        if r0 < 0.12:
+            # Decimal fields: bounds with up to dc (exact) or more (truncated towards zero) places, some outside
+            n, dc = rng.choice(G.INT_BITS), rng.choice([1, 2, 3, 5, 9])
+            cfg = {"kind": "decimal", "bits": n, "signed": rng.random() < 0.6, "sortable": False, "dc": dc,
+                   "step": rng.choice([0, 1, 3, 4, 4, 8, 9, 64])}
+            lo, hi = G.int_domain(cfg)
+
+            def dbound():
+                if rng.random() < 0.2:
+                    return None
+                m = G.gen_int_values(rng, lo, hi, 1)[0]
+                if rng.random() < 0.08:
+                    m = rng.choice([lo - 1, hi + 1, hi + (1 << 66), lo - (1 << 66)])
+                d = Decimal(m).scaleb(-dc)
+                extra = rng.choice([0, 0, 0, 1, 2])
+                if extra:
+                    d = d + Decimal(rng.randint(1, 10 ** extra - 1)).scaleb(-dc - extra) * rng.choice([-1, 1])
+                return d
+            a, b = dbound(), dbound()
+            if a is not None and b is not None and a > b and rng.random() < 0.8:
+                a, b = b, a
+            if a is not None and rng.random() < 0.1:
+                b = a
+            sx, ex_ = rng.random() < 0.4, rng.random() < 0.4
+            items.append((cfg, a, b, sx, ex_))
+            ctx.stat("compile:decimal:" + ("exact-places" if all(v is None or v == v.quantize(Decimal(1).scaleb(-dc)) for v in (a, b))
+                                           else "more-places-than-dc"))
+            lines.append("c13 compile-dec %d %s %d %d %s %s %s %s" % (n // 8, _b(cfg["signed"]), cfg["step"], dc,
+                                                                     "none" if a is None else _rat(a), "none" if b is None else _rat(b),
+                                                                     _b(sx), _b(ex_)))
+        elif r0 < 0.78:
             n = rng.choice(G.INT_BITS)
             cfg = {"kind": "int", "bits": n, "signed": rng.random() < 0.5, "sortable": False, "dc": 0,
                    "step": rng.choice([0, 1, 2, 3, 4, 4, 5, 6, 7, 8, rng.choice([9, 16, 31, 32, 33, 64, 100])])}
@@ -594,6 +664,10 @@ def _compile(ctx):
             if rng.random() < 0.08:
                 b = rng.choice([lo - 1, hi + 1, lo - (1 << 66)])
             sx, ex_ = rng.random() < 0.4, rng.random() < 0.4
+            if a is not None and rng.random() < 0.1:
+                b = a
+                sx, ex_ = rng.random() < 0.25, rng.random() < 0.25
+                ctx.stat("compile:int-equal-bounds")
             items.append((cfg, a, b, sx, ex_))
             lines.append("c13 compile-int %d %s %d %s %s %s %s" % (n // 8, _b(cfg["signed"]), cfg["step"], _o(a), _o(b),
                                                                   _b(sx), _b(ex_)))
@@ -604,6 +678,12 @@ def _compile(ctx):
             a = None if rng.random() < 0.2 else _quiet(_gen_pattern(rng))
             b = None if rng.random() < 0.2 else _quiet(_gen_pattern(rng))
             sx, ex_ = rng.random() < 0.4, rng.random() < 0.4
+            if a is not None and rng.random() < 0.15:
+                # bounds equal under Python's ==: the same double, or the two zeros in either order
+                ta, tb = G.twin_bounds(rng, cfg, G.b2f(a))
+                a, b = G.f2b(ta), G.f2b(tb)
+                sx, ex_ = rng.random() < 0.25, rng.random() < 0.25
+                ctx.stat("compile:float-equal-bounds:" + ("same-encoding" if a == b else "zeros-of-opposite-sign"))
             items.append((cfg, None if a is None else G.b2f(a), None if b is None else G.b2f(b), sx, ex_))
             lines.append("c13 compile-float %s %d %s %s %s %s" % (_b(signed), cfg["step"], _o(a), _o(b), _b(sx), _b(ex_)))
     chunks = [items[i:i + 500] for i in range(0, len(items), 500)]
@@ -682,17 +762,41 @@ def _decimal(ctx):
         d = Decimal(m).scaleb(-dc)
         if extra:
             d = d + Decimal(rng.randint(1, 10 ** extra - 1)).scaleb(-dc - extra) * rng.choice([-1, 1])
+        # the same number written as a Decimal, a string, an int or a float: every form is scaled
+        form = rng.choice(["decimal", "decimal", "str", "int", "float"])
+        x = d
+        if form == "str":
+            x = str(d)
+        elif form == "int":
+            x = int(d)                      # the integral part: an int argument means that number
+            d = Decimal(x)
+        elif form == "float":
+            x = float(d)
+            if x != x or x in (float("inf"), float("-inf")):
+                x, form = d, "decimal"
+            else:
+                d = Decimal(repr(x))        # a float is read through its repr
+        ctx.stat("decimal:prepare:form=" + form)
         num, den = d.as_integer_ratio()
         q = "%d/%d" % (num, den)
         try:
-            p = fld.prepare_number(d)
+            p = fld.prepare_number(x)
             r = "ok %d" % p
         except Exception as ex:  # noqa
             p = None
             r = "err " + G.exc_name(ex)
         lines.append("c13 prepare-dec %d %s %d %s" % (n, _b(signed), dc, q))
         impl.append(r)
-        keys.append((("dec-prepare", n, signed, dc, q), abs(m) < 10 ** dc or m < 0 or extra > 0))
+        keys.append((("dec-prepare", n, signed, dc, q, form), abs(m) < 10 ** dc or m < 0 or extra > 0 or form != "decimal"))
+        if form in ("int", "float") and p is not None:
+            # the value comes back as the number that was given (to the field's precision)
+            import decimal as _d
+            want = d.quantize(Decimal(1).scaleb(-dc), rounding=_d.ROUND_DOWN)
+            back = _try(lambda: fld.from_bytes(fld.to_bytes(x)))
+            if back != want:
+                ctx.violation(SIG_DEC_INT, {"stream": "decimal-form", "bits": n, "signed": signed, "dc": dc, "form": form,
+                                            "value": repr(x)}, str(want), str(back),
+                              "from_bytes(to_bytes(x)) on a field with decimal places, x an int/float")
         if p is not None:
             u = _try(fld.unprepare_number, p)
             lines.append("c13 int2dec %d %d" % (dc, p))
@@ -702,7 +806,7 @@ def _decimal(ctx):
                 un, ud = u.as_integer_ratio()
                 impl.append("%d/%d" % (un, ud) if ud != 1 else "%d" % un)
             keys.append((("dec-unprepare", dc, p), abs(p) < 10 ** dc or p < 0))
-            if not extra and u != d:
+            if not extra and form in ("decimal", "str") and u != d:
                 ctx.violation(SIG_DEC, {"stream": "decimal", "bits": n, "signed": signed, "dc": dc, "value": str(d)},
                               str(d), str(u))
     outs = ctx.driver.ask(lines)
@@ -1107,6 +1211,15 @@ def _gen_e2e_case(rng, tier):
     cfg = G.gen_config(rng)
     k = rng.choice([3, 8, 20, 40]) if tier == "quick" else rng.choice([3, 8, 20, 40, 120])
     vals = G.gen_values(rng, cfg, k)
+    if cfg["kind"] == "float" and rng.random() < 0.5:
+        # both zeros (distinct terms, equal numbers) and the denormals next to them
+        vals += [0.0, -0.0 if cfg["signed"] else 5e-324] + ([5e-324, -5e-324] if cfg["signed"] and rng.random() < 0.5 else [])
+        rng.shuffle(vals)
+    if cfg["kind"] == "decimal" and rng.random() < 0.4:
+        # whole numbers given as Python ints (the same numbers; every form is scaled by the field)
+        vals = [int(v) if (v == v.to_integral_value() and rng.random() < 0.7) else v for v in vals]
+        lo_, hi_ = G.int_domain(cfg)
+        vals += [w for w in (rng.randint(-3, 3), hi_ // 10 ** cfg["dc"], -(-lo_ // 10 ** cfg["dc"])) if G.in_domain(cfg, w)]
     multi = cfg["kind"] != "datetime" and rng.random() < 0.25 and len(vals) < 100
     docs = []
     i = 0
@@ -1128,16 +1241,11 @@ def _gen_e2e_case(rng, tier):
         for (a, b, sx, ex_) in queries[:8]:
             if a is None and b is None:
                 continue    # "[ TO ]" is not range syntax
-            if cfg["kind"] == "float" and any(v is not None and (v in (float("inf"), float("-inf")) or G.f2b(v) == 1 << 63)
-                                               for v in (a, b)):
-                continue
             ptexts.append((a, b, sx, ex_))
         case["parser_q"] = list(ptexts)
         case["parser"] = [_parser_text(cfg, *p) for p in ptexts]
         # a bare number parses to a Term on the full-precision bytes: the interval [v, v]
         for v in [rng.choice(vals) for _ in range(3)]:
-            if cfg["kind"] == "float" and (v in (float("inf"), float("-inf")) or G.f2b(v) == 1 << 63):
-                continue
             case["parser_q"].append((v, v, False, False))
             case["parser"].append(repr(v) if cfg["kind"] == "float" else str(v))
     if cfg["kind"] == "datetime":
@@ -1239,6 +1347,10 @@ def _check_e2e(ctx, case, out, report=True):
         ctx.case(("e2e-range", json.dumps(cfg, sort_keys=True), sd, _ser_q(cfg, q)), nontrivial=0 < len(e) < ndocs)
         ctx.stat("e2e-range:%s:%s%s" % (cfg["kind"], "open" if (q[0] is None or q[1] is None) else "closed",
                                         "-excl" if (q[2] or q[3]) else ""))
+        if cfg["kind"] == "decimal" and any(isinstance(v, int) for v in q[:2]):
+            ctx.stat("e2e-range:decimal:int-bound")
+        if cfg["kind"] == "decimal" and any(isinstance(v, Decimal) and v != v.quantize(Decimal(1).scaleb(-cfg["dc"])) for v in q[:2]):
+            ctx.stat("e2e-range:decimal:bound-with-more-places-than-dc(oracle=truncated-bound)")
         if o != e:
             sig = SIG_RANGE_EXC if isinstance(o, str) else SIG_RANGE
             found.append((sig, {"stream": "e2e-range", "cfg": cfg, "docs": _ser_docs(cfg, case["docs"]),
@@ -1276,7 +1388,7 @@ def _ser_v(cfg, v):
     if k == "float":
         return {"bits": G.f2b(v), "repr": repr(v)}
     if k == "decimal":
-        return str(v)
+        return {"int": v} if isinstance(v, int) else str(v)
     if k == "datetime":
         return v.isoformat()
     return v
@@ -1289,7 +1401,7 @@ def _unser_v(cfg, x):
     if k == "float":
         return G.b2f(x["bits"])
     if k == "decimal":
-        return Decimal(x)
+        return x["int"] if isinstance(x, dict) else Decimal(x)
     if k == "datetime":
         return datetime.datetime.fromisoformat(x)
     return x
@@ -1622,9 +1734,9 @@ def _probe_cases():
     nz, pz = -0.0, 0.0
     fcfg = lambda step: {"kind": "float", "bits": 64, "signed": True, "step": step, "sortable": False, "dc": 0}
     out = []
-    for step in (4, 0):
+    for step in (4, 0, 8):
         out.append(("zero", fcfg(step), [[nz], [pz], [1.0], [-1.0], [5e-324], [-5e-324], [nz, 1.0]],
-                    [None, pz, nz, 1.0, -1.0]))
+                    [None, pz, nz, 1.0, -1.0, 5e-324, -5e-324]))
         out.append(("nan", fcfg(step), [[G.b2f(0x7ff8000000000000)], [G.b2f(0xfff8000000000000)], [1.0],
                                         [float("inf")], [float("-inf")], [0.0]],
                     [None, 1.0, float("inf"), float("-inf")]))
@@ -1685,8 +1797,23 @@ def _probe_run(ctx, kind, cfg, docs, queries):
     if out["build"] is not None:
         return [(SIG_BUILD, {"stream": "probe-" + kind, "cfg": cfg}, "index built", out["build"])]
     exp = _probe_expected(ctx, kind, cfg, docs, queries)
-    for q, e, o in zip(queries, exp, out["ranges"]):
+    if kind in ("zero", "nan"):
+        # what the encoding implements (theorem range_query_float): membership under the IEEE total order
+        sd = _spec_docs(cfg, docs)
+        total = [[int(x) for x in t.strip("()").split()] for t in ctx.driver.ask(
+            ["c13 spec-filter-float %s %s %s %s %s" % (sd, _o(G.to_spec(cfg, a)), _o(G.to_spec(cfg, b)), _b(sx), _b(ex_))
+             for (a, b, sx, ex_) in queries])]
+    else:
+        total = [None] * len(queries)
+    for q, e, o, t in zip(queries, exp, out["ranges"], total):
         ctx.case(("probe", kind, cfg["step"], _ser_q(cfg, q)), nontrivial=True)
+        if t is not None and o != t:
+            # neither the numeric reading nor the recorded total-order behaviour: never a known finding
+            ctx.stat("probe-%s:differs-from-total-order" % kind)
+            found.append((SIG_RANGE_EXC if isinstance(o, str) else SIG_RANGE,
+                          {"stream": "probe-" + kind, "cfg": cfg, "docs": _ser_docs(cfg, docs), "query": _ser_q(cfg, q),
+                           "oracle": "total-order"}, t, o))
+            continue
         if o != e:
             sig = _probe_classify(kind, cfg, docs, q, e, o)
             ctx.stat("probe-%s:deviation" % kind)
@@ -1798,6 +1925,19 @@ def _run_record(ctx, rec):
             return fld.unprepare_number(fld.prepare_number(d))
         r = _try(rt)
         return [] if r == d else [(SIG_DEC, case, str(d), str(r))]
+    if st == "decimal-form":
+        import ast
+        import decimal as _d
+        cfg = {"kind": "decimal", "bits": case["bits"], "signed": case["signed"], "step": 4, "sortable": False,
+               "dc": case["dc"]}
+        x = ast.literal_eval(case["value"])
+        want = Decimal(repr(x)).quantize(Decimal(1).scaleb(-case["dc"]), rounding=_d.ROUND_DOWN)
+
+        def rt():
+            fld = G.field_of(cfg)
+            return fld.from_bytes(fld.to_bytes(x))
+        r = _try(rt)
+        return [] if r == want else [(SIG_DEC_INT, case, str(want), str(r))]
     if st == "forder":
         from whoosh.util import numeric as N
         x, y = G.b2f(case["x"]), G.b2f(case["y"])
